@@ -20,7 +20,8 @@
                           (a common written part, then the junk of each run), pairwise for (s, z_inv)
       WFd n p m sv        shape invariant of the object (well-formed data and preconditioner, lengths of the stored
                           result vectors, KShape of the KKT object right after setup), dimensions n p m
-      run K ident cp fault j st ops   the observations (status, result vectors, info) of the calls of a history that
+      run K ident sparse_pc cp fault j st ops   (sparse_pc: the Ruiz loop-guard quirk of sparse/preconditioner.hpp)
+                          the observations (status, result vectors, info) of the calls of a history that
                           returned, and the model error that stopped it (None: never left the model's domain)
       ops_ok              every setup()/update() of the history has dimension-correct arguments
       delta_ok            at every update() of the history, 0 < k_delta of the current KKT object (evaluated on ONE run)
@@ -146,8 +147,8 @@ Print Assumptions main_loop_junk_indep.
 (** * The solver object *)
 
 Theorem setup_junk_indep :
-  forall (K : Consts) (ident : bool) (j1 j2 : F) (S : Settings) (n p m : nat) (B : Blocks),
-    RR sv_agree_strong (setup K ident j1 S n p m B) (setup K ident j2 S n p m B).
+  forall (K : Consts) (ident sparse_pc : bool) (j1 j2 : F) (S : Settings) (n p m : nat) (B : Blocks),
+    RR sv_agree_strong (setup K ident sparse_pc j1 S n p m B) (setup K ident sparse_pc j2 S n p m B).
 Proof. exact JunkAPIProofs.setup_junk_indep. Qed.
 Print Assumptions setup_junk_indep.
 
@@ -170,47 +171,48 @@ Print Assumptions solve_junk_indep.
 
 (* update(): whenever it returns in both runs the objects agree (weak relation) *)
 Theorem update_keeps_agreement :
-  forall (K : Consts) (a b : Solver) (B : Blocks) (reuse : bool) (a' b' : Solver),
-    sv_agree a b -> update K a B reuse = Ok a' -> update K b B reuse = Ok b' -> sv_agree a' b'.
+  forall (K : Consts) (sparse_pc : bool) (a b : Solver) (B : Blocks) (reuse : bool) (a' b' : Solver),
+    sv_agree a b -> update K sparse_pc a B reuse = Ok a' -> update K sparse_pc b B reuse = Ok b' -> sv_agree a' b'.
 Proof. exact JunkAPIProofs.update_agree_ok. Qed.
 Print Assumptions update_keeps_agreement.
 
 (* update() directly after setup()/solve() with a bound pattern that is not larger: same status, no condition *)
 Theorem update_junk_indep_no_growth :
-  forall (K : Consts) (a b : Solver) (B : Blocks) (reuse : bool),
+  forall (K : Consts) (sparse_pc : bool) (a b : Solver) (B : Blocks) (reuse : bool),
     sv_agree_strong a b ->
-    (forall (pc : Precond) (d : Data), update_data K a B reuse = Ok (pc, d) ->
+    (forall (pc : Precond) (d : Data), update_data K sparse_pc a B reuse = Ok (pc, d) ->
        (d_nlb d <= d_nlb (sv_data a))%nat /\ (d_nub d <= d_nub (sv_data a))%nat) ->
-    RR sv_agree (update K a B reuse) (update K b B reuse).
+    RR sv_agree (update K sparse_pc a B reuse) (update K sparse_pc b B reuse).
 Proof. exact JunkAPIProofs.update_junk_indep_no_growth. Qed.
 Print Assumptions update_junk_indep_no_growth.
 
 (* update() with any pattern, delta > 0 *)
 Theorem update_junk_indep :
-  forall K : Consts, sane_consts K ->
+  forall (K : Consts) (sparse_pc : bool), sane_consts K ->
   forall (j1 j2 : F) (n p m : nat) (a b : Solver) (B : Blocks) (reuse : bool),
     sv_agreeJ j1 j2 a b -> WFd n p m a -> update_blocks_ok n p m B -> 0 < k_delta (sv_kkt a) ->
-    RR (sv_agreeJ j1 j2) (update K a B reuse) (update K b B reuse).
+    RR (sv_agreeJ j1 j2) (update K sparse_pc a B reuse) (update K sparse_pc b B reuse).
 Proof. exact JunkDeltaProofs.update_agreeJ. Qed.
 Print Assumptions update_junk_indep.
 
 (* the strong relation does NOT survive an update() that enlarges the bound pattern: k_mat depends on junk *)
 Theorem update_strong_agreement_refuted :
-  ~ (forall (K : Consts) (a b : Solver) (B : Blocks) (reuse : bool) (a' b' : Solver),
-       sv_agree_strong a b -> update K a B reuse = Ok a' -> update K b B reuse = Ok b' -> sv_agree_strong a' b').
+  ~ (forall (K : Consts) (sparse_pc : bool) (a b : Solver) (B : Blocks) (reuse : bool) (a' b' : Solver),
+       sv_agree_strong a b -> update K sparse_pc a B reuse = Ok a' -> update K sparse_pc b B reuse = Ok b' ->
+       sv_agree_strong a' b').
 Proof. exact JunkExamples.update_strong_agreement_refuted. Qed.
 Print Assumptions update_strong_agreement_refuted.
 
 (* the shape invariant: established by setup(), kept by update() and solve(); it implies what solve() needs *)
 Theorem setup_establishes_shape :
-  forall (K : Consts) (ident : bool) (j : F) (S : Settings) (n p m : nat) (B : Blocks) (sv : Solver),
-    sane_consts K -> setup_blocks_ok n p m B -> setup K ident j S n p m B = Ok sv -> WFd n p m sv.
+  forall (K : Consts) (ident sparse_pc : bool) (j : F) (S : Settings) (n p m : nat) (B : Blocks) (sv : Solver),
+    sane_consts K -> setup_blocks_ok n p m B -> setup K ident sparse_pc j S n p m B = Ok sv -> WFd n p m sv.
 Proof. exact JunkWFProofs.setup_wf. Qed.
 Print Assumptions setup_establishes_shape.
 
 Theorem update_keeps_shape :
-  forall (K : Consts) (n p m : nat) (sv : Solver) (B : Blocks) (reuse : bool) (sv' : Solver),
-    sane_consts K -> WFd n p m sv -> update_blocks_ok n p m B -> update K sv B reuse = Ok sv' -> WFd n p m sv'.
+  forall (K : Consts) (sparse_pc : bool) (n p m : nat) (sv : Solver) (B : Blocks) (reuse : bool) (sv' : Solver),
+    sane_consts K -> WFd n p m sv -> update_blocks_ok n p m B -> update K sparse_pc sv B reuse = Ok sv' -> WFd n p m sv'.
 Proof. exact JunkWFProofs.update_wf. Qed.
 Print Assumptions update_keeps_shape.
 
@@ -236,60 +238,60 @@ Print Assumptions solve_keeps_tails.
 (** * T1: call histories *)
 
 Theorem junk_independence :
-  forall (K : Consts) (ident : bool) (cp_bits : Z) (fault : nat -> bool),
+  forall (K : Consts) (ident sparse_pc : bool) (cp_bits : Z) (fault : nat -> bool),
     sane_consts K ->
     forall (j1 j2 : F) (ops : list Op) (dims : option (nat * nat * nat)) (st1 st2 : option Solver),
       opt_agreeJ j1 j2 st1 st2 -> st_inv dims st1 -> ops_ok dims ops ->
-      delta_ok K ident cp_bits fault j1 st1 ops ->
-      run K ident cp_bits fault j1 st1 ops = run K ident cp_bits fault j2 st2 ops.
+      delta_ok K ident sparse_pc cp_bits fault j1 st1 ops ->
+      run K ident sparse_pc cp_bits fault j1 st1 ops = run K ident sparse_pc cp_bits fault j2 st2 ops.
 Proof. exact JunkHistoryProofs.junk_independence. Qed.
 Print Assumptions junk_independence.
 
 Theorem junk_independence_fresh :
-  forall (K : Consts) (ident : bool) (cp_bits : Z) (fault : nat -> bool),
+  forall (K : Consts) (ident sparse_pc : bool) (cp_bits : Z) (fault : nat -> bool),
     sane_consts K ->
     forall (j1 j2 : F) (ops : list Op),
-      ops_ok None ops -> delta_ok K ident cp_bits fault j1 None ops ->
-      run K ident cp_bits fault j1 None ops = run K ident cp_bits fault j2 None ops.
+      ops_ok None ops -> delta_ok K ident sparse_pc cp_bits fault j1 None ops ->
+      run K ident sparse_pc cp_bits fault j1 None ops = run K ident sparse_pc cp_bits fault j2 None ops.
 Proof. exact JunkHistoryProofs.junk_independence_fresh. Qed.
 Print Assumptions junk_independence_fresh.
 
 (* every history whose settings satisfy the hypotheses of the interior-point theorems: no trace condition *)
 Theorem junk_independence_valid_settings :
-  forall (K : Consts) (ident : bool) (cp_bits : Z) (fault : nat -> bool),
+  forall (K : Consts) (ident sparse_pc : bool) (cp_bits : Z) (fault : nat -> bool),
     sane_consts K -> ConstsOK K ->
     forall (j1 j2 : F) (ops : list Op),
       ops_ok None ops -> ops_valid ops ->
-      run K ident cp_bits fault j1 None ops = run K ident cp_bits fault j2 None ops.
+      run K ident sparse_pc cp_bits fault j1 None ops = run K ident sparse_pc cp_bits fault j2 None ops.
 Proof. exact JunkDeltaPosProofs.junk_independence_valid_settings. Qed.
 Print Assumptions junk_independence_valid_settings.
 
 Theorem delta_ok_of_valid_settings :
-  forall (K : Consts) (ident : bool) (cp_bits : Z) (fault : nat -> bool),
+  forall (K : Consts) (ident sparse_pc : bool) (cp_bits : Z) (fault : nat -> bool),
     sane_consts K -> ConstsOK K ->
     forall (j : F) (ops : list Op) (dims : option (nat * nat * nat)) (st : option Solver),
-      st_inv dims st -> pos_inv st -> ops_ok dims ops -> ops_valid ops -> delta_ok K ident cp_bits fault j st ops.
+      st_inv dims st -> pos_inv st -> ops_ok dims ops -> ops_valid ops -> delta_ok K ident sparse_pc cp_bits fault j st ops.
 Proof. exact JunkDeltaPosProofs.delta_ok_of_valid_settings. Qed.
 Print Assumptions delta_ok_of_valid_settings.
 
 (* no condition on the regularisation: the clause that is missing w.r.t. [junk_independence] is
    "if update() leaves the model's domain (division by zero in update_kkt) in one run, it does so in the other" *)
 Theorem junk_independence_partial :
-  forall (K : Consts) (ident : bool) (cp_bits : Z) (fault : nat -> bool),
+  forall (K : Consts) (ident sparse_pc : bool) (cp_bits : Z) (fault : nat -> bool),
     sane_consts K ->
     forall (j1 j2 : F) (ops : list Op) (dims : option (nat * nat * nat)) (st1 st2 : option Solver),
       opt_agree st1 st2 -> st_inv dims st1 -> st_inv dims st2 -> ops_ok dims ops ->
-      prefix_compat (fst (run K ident cp_bits fault j1 st1 ops)) (fst (run K ident cp_bits fault j2 st2 ops)) /\
-      (snd (run K ident cp_bits fault j1 st1 ops) = None -> snd (run K ident cp_bits fault j2 st2 ops) = None ->
-       fst (run K ident cp_bits fault j1 st1 ops) = fst (run K ident cp_bits fault j2 st2 ops)).
+      prefix_compat (fst (run K ident sparse_pc cp_bits fault j1 st1 ops)) (fst (run K ident sparse_pc cp_bits fault j2 st2 ops)) /\
+      (snd (run K ident sparse_pc cp_bits fault j1 st1 ops) = None -> snd (run K ident sparse_pc cp_bits fault j2 st2 ops) = None ->
+       fst (run K ident sparse_pc cp_bits fault j1 st1 ops) = fst (run K ident sparse_pc cp_bits fault j2 st2 ops)).
 Proof. exact JunkHistoryProofs.junk_independence_partial. Qed.
 Print Assumptions junk_independence_partial.
 
 (* ... and that clause is really missing: without [delta_ok] the full statement is false in the model *)
 Theorem junk_independence_unconditional_refuted :
-  ~ (forall (K : Consts) (ident : bool) (cp_bits : Z) (fault : nat -> bool) (j1 j2 : F) (ops : list Op),
+  ~ (forall (K : Consts) (ident sparse_pc : bool) (cp_bits : Z) (fault : nat -> bool) (j1 j2 : F) (ops : list Op),
        sane_consts K -> ops_ok None ops ->
-       run K ident cp_bits fault j1 None ops = run K ident cp_bits fault j2 None ops).
+       run K ident sparse_pc cp_bits fault j1 None ops = run K ident sparse_pc cp_bits fault j2 None ops).
 Proof. exact JunkExamples.junk_independence_unconditional_refuted. Qed.
 Print Assumptions junk_independence_unconditional_refuted.
 
@@ -303,10 +305,10 @@ Proof. exact JunkHistoryProofs.no_shared_state. Qed.
 Print Assumptions no_shared_state.
 
 Theorem no_shared_state_solver :
-  forall (K : Consts) (identf : nat -> bool) (junkf : nat -> F) (cpf : nat -> Z) (faultf : nat -> nat -> bool)
+  forall (K : Consts) (identf sparsef : nat -> bool) (junkf : nat -> F) (cpf : nat -> Z) (faultf : nat -> nat -> bool)
          (l : list (nat * Op)) (P : nat -> option Solver) (i : nat),
-    outs_of (res Obs) i (run_inter (option Solver) Op (res Obs) (step_tot K identf junkf cpf faultf) P l) =
-    run_seq (option Solver) Op (res Obs) (step_tot K identf junkf cpf faultf) i (P i) (calls_of Op i l).
+    outs_of (res Obs) i (run_inter (option Solver) Op (res Obs) (step_tot K identf sparsef junkf cpf faultf) P l) =
+    run_seq (option Solver) Op (res Obs) (step_tot K identf sparsef junkf cpf faultf) i (P i) (calls_of Op i l).
 Proof. exact JunkHistoryProofs.no_shared_state_solver. Qed.
 Print Assumptions no_shared_state_solver.
 
@@ -324,17 +326,22 @@ Proof.
 Qed.
 
 Example example_history_hypotheses :
-  ops_ok None hops /\ delta_ok consts true 16 hfault hj1 None hops /\ delta_ok consts false 16 hfault hj1 None hops /\
+  ops_ok None hops /\ delta_ok consts true false 16 hfault hj1 None hops /\ delta_ok consts false false 16 hfault hj1 None hops /\
   hj1 <> hj2.
 Proof.
   split; [exact JunkExamples.hops_ok|]. split; [exact JunkExamples.hops_delta_ok_ident|].
   split; [exact JunkExamples.hops_delta_ok_ruiz|]. vm_compute. discriminate.
 Qed.
 
-(* hrun ident j := run consts ident 16 hfault j None hops *)
+(* hrun ident j := run consts ident false 16 hfault j None hops; the third clause is the Ruiz preconditioner with
+   sparse_pc = true (by junk_independence_valid_settings) *)
 Example example_history_junk_independent :
-  hrun true hj1 = hrun true hj2 /\ hrun false hj1 = hrun false hj2.
-Proof. split; [exact JunkExamples.history_junk_independent_ident|exact JunkExamples.history_junk_independent_ruiz]. Qed.
+  hrun true hj1 = hrun true hj2 /\ hrun false hj1 = hrun false hj2 /\
+  run consts false true 16 hfault hj1 None hops = run consts false true 16 hfault hj2 None hops.
+Proof.
+  split; [exact JunkExamples.history_junk_independent_ident|].
+  split; [exact JunkExamples.history_junk_independent_ruiz|exact JunkExamples.history_junk_independent_sparse_pc].
+Qed.
 
 (* the history is a real one: all three calls return, SOLVED, both lower bounds active in the result *)
 Example example_history_is_real :
@@ -353,14 +360,14 @@ Proof. exact JunkExamples.update_reads_unwritten_slots. Qed.
 (* the witness of the refutation: settings with delta_init = -4 (rejected by verify_settings), junk 2 vs 3 *)
 Example example_update_status_depends_on_junk :
   verify_settings bad_settings = false /\
-  map (fun o => fst (fst o)) (fst (run consts true 16 hfault (qmk 2 1) None bad_ops)) = [None] /\
-  snd (run consts true 16 hfault (qmk 2 1) None bad_ops) = Some DivZero /\
-  map (fun o => fst (fst o)) (fst (run consts true 16 hfault (qmk 3 1) None bad_ops)) = [None; None] /\
-  snd (run consts true 16 hfault (qmk 3 1) None bad_ops) = None.
+  map (fun o => fst (fst o)) (fst (run consts true false 16 hfault (qmk 2 1) None bad_ops)) = [None] /\
+  snd (run consts true false 16 hfault (qmk 2 1) None bad_ops) = Some DivZero /\
+  map (fun o => fst (fst o)) (fst (run consts true false 16 hfault (qmk 3 1) None bad_ops)) = [None; None] /\
+  snd (run consts true false 16 hfault (qmk 3 1) None bad_ops) = None.
 Proof. split; [exact JunkExamples.bad_settings_rejected|exact JunkExamples.update_status_depends_on_junk]. Qed.
 
 Example example_interleaving :
-  let stp := step_tot consts (fun i => Nat.eqb i 0) (fun i => if Nat.eqb i 0 then hj1 else hj2) (fun _ => 16%Z)
+  let stp := step_tot consts (fun i => Nat.eqb i 0) (fun _ => false) (fun i => if Nat.eqb i 0 then hj1 else hj2) (fun _ => 16%Z)
                       (fun _ => hfault) in
   let l := [(0%nat, OSetup ex_settings 2 0 0 hB0); (1%nat, OSetup ex_settings 2 0 0 hB0); (1%nat, OUpdate hB1 true);
             (0%nat, OUpdate hB1 true); (1%nat, OSolve); (0%nat, OSolve)] in
